@@ -54,9 +54,13 @@ func init() {
 	body := func(c *explore.Ctx) {
 		pol := policies[c.Choose(len(policies))]
 		api := c.Bool()
+		warm := c.Choose(3) // 0: fresh parser; 1, 2: the same parser has parsed [add --force deep] / [rm] before
 		maxDepth := 4
 		if c.Thorough {
 			maxDepth = 5
+		}
+		if warm != 0 {
+			maxDepth-- // the reused-parser variants go one unit less deep
 		}
 		n := c.Choose(maxDepth + 1)
 		var argv []string
@@ -69,7 +73,7 @@ func init() {
 			decls[pol.opts] = d
 		}
 		c.Describe(func() interface{} {
-			return map[string]interface{}{"policy": pol.name, "api_path": api, "argv": argv, "tree": describeTree(d.Top)}
+			return map[string]interface{}{"policy": pol.name, "api_path": api, "earlier_parse_on_same_parser": warm, "argv": argv, "tree": describeTree(d.Top)}
 		})
 		cfg := &ref.Config{D: d, Handler: pol.handler}
 		res := ref.Run(cfg, argv)
@@ -87,6 +91,16 @@ func init() {
 		if b.Err != nil {
 			c.Fail("setup-error", b.Err.Error())
 			return
+		}
+		if warm != 0 {
+			// what is in scope must not depend on what an earlier parse on the same parser selected
+			w := [][]string{nil, {"add", "--force", "deep", "--depth=1"}, {"rm", "--recursive"}}[warm]
+			if wr := runParser(b, &ref.Config{D: d}, w, runOpts{}); wr.Err != nil || wr.Panic != nil {
+				c.Fail("harness-warm-up-parse-failed", fmt.Sprint(wr.Err, wr.Panic))
+				return
+			}
+			rezero(b)
+			c.Hit("after-earlier-parse")
 		}
 		rr := runParser(b, cfg, argv, runOpts{})
 		if rr.Panic != nil {
@@ -151,7 +165,7 @@ func init() {
 		if !sameStrings(rr.Rest, res.Rest) {
 			c.Fail("remaining-arguments|"+pol.name, map[string]interface{}{"want": res.Rest, "got": rr.Rest})
 		}
-		if !sameStrings(b.ActiveChain(), chainNames(res.Chain)) {
+		if warm == 0 && !sameStrings(b.ActiveChain(), chainNames(res.Chain)) {
 			c.Fail("context-after-unknown|"+pol.name, map[string]interface{}{"want": chainNames(res.Chain), "got": b.ActiveChain()})
 		}
 		compareOptionValues(c, b, cfg, res, "continued-parse-")
@@ -162,10 +176,10 @@ func init() {
 		ShardDepth: 3,
 		Body:       body,
 		Rule: "declaration with case-sensitive, namespaced and non-ASCII names and options that exist only in sibling / deeper commands; 7 policies (fail, fail+PassDoubleDash, IgnoreUnknown, handler returning the arguments unchanged / dropping the next / " +
-			"inserting a token / returning an error) x {tags, API} x every sequence of <= 4 (quick) / <= 5 (thorough) units over 12 valid tokens and 17 near misses (case flips, prefixes, one character dropped/added/changed, " +
+			"inserting a token / returning an error) x {tags, API} x {fresh parser, parser that already parsed a vector selecting add/deep, selecting rm} x every sequence of <= 4 (quick) / <= 5 (thorough) units over 12 valid tokens and 17 near misses (case flips, prefixes, one character dropped/added/changed, " +
 			"namespace missing/doubled/case-changed, unknown character at either end of a cluster, inline arguments, a neighbouring non-ASCII letter); oracle = CLM scope tables and handler call log",
 		Assumptions:  []string{"the name passed to the handler for a multi-character cluster is not asserted", "values of flags that precede an unknown character inside one cluster are not asserted"},
-		RequiredHits: []string{"unknown-rejected", "handler-called", "continued-after-unknown"},
+		RequiredHits: []string{"unknown-rejected", "handler-called", "continued-after-unknown", "after-earlier-parse"},
 		Bound:        [2]string{"unit sequences <= 4", "unit sequences <= 5"},
 		BudgetS:      [2]int{100, 1500},
 	})
